@@ -380,6 +380,12 @@ def lk0_blocking_acquisitions(ctx, rep):
             bad += 1
             lid = default_lock_id(ctx.prog, s.body, ctx.prog.bp(s.body).arg_term(s.bb, 0), s.fn)
             rep.note_fn(s.body.path)
+            # is the TryLockResult unwrapped (a busy lock then panics the calling thread)?
+            bp_ = ctx.prog.bp(s.body)
+            me = ("trylockres", bp_.arg_term(s.bb, 0))
+            unwrapped = any(x.ck in ("std::result::Result::unwrap", "std::result::Result::expect") and x.term["args"] and bp_.arg_term(x.bb, 0) == me for x in ctx.prog.sites(s.body))
+            if unwrapped:
+                rep.bad(R, "try-lock-unwrapped:%s:%s" % (lid, short(s.body.path)), s.where, "%s().unwrap() on %s: the calling thread panics whenever another thread holds the lock" % (s.ck.split("::")[-1], lid))
             rep.bad(R, "blocking-acquisition:%s:%s" % (lid, short(s.body.path)), s.where,
                     "%s on %s: when another thread holds the lock the operation is skipped or (unwrapped) the calling thread panics" % (s.ck.split("::")[-1], lid))
     if not bad:
